@@ -140,6 +140,17 @@ def h_grid(cx, nu, nv, scenario):
         cx.check('regenerated_shape', len(second) == nv + 2 and all(len(r) == nu + 1 for r in second), '%d rows' % len(second))
         cx.eq('regenerated_grid', second, [[[cx.const(F(3 * i, nv + 1)), cx.const(F(2 * j, nu)), cx.const(0), 1] for j in range(nu + 1)] for i in range(nv + 2)])
         return
+    elif scenario == 'bumps_after_read':
+        # (2x2 divisions, base_extent 1: the only admissible bump centre is the middle point)
+        g.weight = list(W)
+        g.grid
+        h = cx.real('h')
+        g.bumps(1, bump_height=h, base_extent=1)
+        exp = expect(W)
+        w_mid = W[1 + (nv + 1) * 1]
+        exp[1][1] = [exp[1][1][0], exp[1][1][1], h * w_mid, w_mid]
+        cx.eq('grid_after_bumps', g.grid, exp)
+        return
     elif scenario == 'reset':
         g.weight = list(W)
         g.grid
@@ -228,6 +239,7 @@ def instances(tier):
     for nu, nv in grids:
         for sc in ('set_then_read', 'read_set_read', 'set_twice', 'scalar', 'regenerate', 'reset'):
             out.append(inst('gridweighted %dx%d %s' % (nu, nv, sc), h_grid, nu=nu, nv=nv, scenario=sc))
+    out.append(inst('gridweighted 2x2 bumps_after_read', h_grid, nu=2, nv=2, scenario='bumps_after_read'))
     for sp in (spec('curve', (2,), ((1,),)), spec('surface', (1, 2), ((1,), ())), spec('volume', (1, 1, 2), ((), (1,), ()))):
         out.append(inst('%s convert' % spec_name(sp), h_convert, timeout=900, sp=sp))
     return out
